@@ -74,7 +74,7 @@ CLIENT_STATES = ["first_flight", "after_sh", "after_ee", "after_cert", "after_cv
                  "local_key_update", "close_pending", "closing", "draining"]
 DEAD = ("closing", "draining")
 # catalogue sizes differ a lot between families; `parts` slices a catalogue, `n` caps a slice
-QUICK = {"raw": (4, 600), "mut": (3, 350), "frames": (3, 520), "tls": (1, None), "hist": (1, None)}
+QUICK = {"raw": (4, 900), "mut": (3, 500), "frames": (2, 750), "tls": (1, None), "hist": (1, None)}
 FAMS = ("hist", "tls", "frames", "raw", "mut")
 
 
